@@ -22,7 +22,11 @@ import XrsVerif.Core.KLang
 namespace XrsVerif.IL
 open XrsVerif
 
-inductive IOp | add | sub | mul | fdiv | mod | min | max
+inductive IOp | add | sub | mul | fdiv | mod | min | max | tdiv
+  deriving Repr, DecidableEq
+
+/-- NaN-ignoring reductions over a whole numeric array (numba's `np.nan*`: one pass in memory order) -/
+inductive RedOp | nansum | nanmean | nanmin | nanmax | nanvar | nanstd
   deriving Repr, DecidableEq
 
 /-- integer expressions -/
@@ -51,6 +55,7 @@ inductive FE where
   /-- an external numeric function of (up to) four numeric and one integer argument, e.g. the metric
       dispatch `_distance(x1, x2, y1, y2, metric)`; interpreted by `State.ext` -/
   | ext (fn : String) (a b c d : FE) (k : IE)
+  | red (op : RedOp) (arr : String)
   deriving Repr, DecidableEq
 
 /-- conditions (`and` / `or` short-circuit) -/
@@ -124,7 +129,7 @@ def off2 (shp : List Nat) (i j : Int) : Nat :=
 
 def IOp.eval : IOp → Int → Int → Int
   | .add => (· + ·) | .sub => (· - ·) | .mul => (· * ·)
-  | .fdiv => Int.fdiv | .mod => Int.fmod
+  | .fdiv => Int.fdiv | .mod => Int.fmod | .tdiv => Int.tdiv
   | .min => fun a b => if b < a then b else a
   | .max => fun a b => if b > a then b else a
 
@@ -144,12 +149,37 @@ def IE.ok (s : State F) : IE → Bool
   | .var _ => true
   | .sum _ => true
   | .bin op a b => a.ok s && b.ok s &&
-      (match op with | .fdiv | .mod => decide (b.eval s ≠ 0) | _ => true)
+      (match op with | .fdiv | .mod | .tdiv => decide (b.eval s ≠ 0) | _ => true)
   | .neg a => a.ok s
   | .dim a k => decide (k < (s.shp a).length)
   | .ld1 a i => i.ok s && decide ((s.shp a).length = 1) && inRange (i.eval s) ((s.shp a).getD 0 0)
   | .ld2 a i j => i.ok s && j.ok s && decide ((s.shp a).length = 2) &&
       inRange (i.eval s) ((s.shp a).getD 0 0) && inRange (j.eval s) ((s.shp a).getD 1 0)
+
+/-- the non-NaN entries, in order -/
+def nonNan (xs : List F) : List F := xs.filter fun x => !(Fl.isnan x)
+
+def sumF (xs : List F) : F := xs.foldl Fl.add (Fl.lit 0 1)
+
+/-- `np.nansum` … `np.nanstd` as numba implements them: `nanmean = sum / count` (NaN for no entry),
+    `nanmin` / `nanmax` keep the first extreme entry (NaN for no entry), `nanvar` is the mean squared
+    deviation from `nanmean` -/
+def RedOp.eval (op : RedOp) (xs : List F) : F :=
+  let ys := nonNan xs
+  let n : F := Fl.lit ys.length 1
+  let mean := Fl.div (sumF ys) n
+  let var := Fl.div (sumF (ys.map fun y => Fl.mul (Fl.sub y mean) (Fl.sub y mean))) n
+  match op with
+  | .nansum => sumF ys
+  | .nanmean => mean
+  | .nanmin => match ys with
+      | [] => Fl.nan
+      | y :: r => r.foldl (fun m x => if Fl.lt x m then x else m) y
+  | .nanmax => match ys with
+      | [] => Fl.nan
+      | y :: r => r.foldl (fun m x => if Fl.lt m x then x else m) y
+  | .nanvar => var
+  | .nanstd => Fl.sqrt var
 
 def FE.eval (s : State F) : FE → F
   | .lit n d => Fl.lit n d
@@ -162,6 +192,7 @@ def FE.eval (s : State F) : FE → F
   | .un op a => op.eval (a.eval s)
   | .bin op a b => op.eval (a.eval s) (b.eval s)
   | .ext fn a b c d k => s.ext fn (a.eval s) (b.eval s) (c.eval s) (d.eval s) (k.eval s)
+  | .red op a => op.eval (s.fa a)
 
 def FE.ok (s : State F) : FE → Bool
   | .ofInt e => e.ok s
